@@ -140,7 +140,9 @@ def tlc(module, cfg=None, *, workers=4, timeout=600, simulate=None, depth=None, 
     md = metadir or os.path.join(VERIF, ".tlc", "%s_%s_%d" % (module, cfg, os.getpid()))
     shutil.rmtree(md, ignore_errors=True)
     os.makedirs(md, exist_ok=True)
-    jopts = ["-XX:+UseParallelGC", "-Xmx" + xmx, "-Xss1g"]
+    # TLC unpacks its standard modules into java.io.tmpdir on every run: keep that inside the run's metadir
+    # (removed afterwards) instead of littering /tmp
+    jopts = ["-XX:+UseParallelGC", "-Xmx" + xmx, "-Xss1g", "-Djava.io.tmpdir=" + md]
     if dfs:
         jopts.append("-Dtlc2.tool.queue.IStateQueue=StateDeque")
     cmd = ["java"] + jopts + ["-cp", TLA_CP, "tlc2.TLC", "-workers", str(workers),
